@@ -214,6 +214,22 @@ def run(ctx, impl_only=False):
         for w in (lambda v: v, lambda v: {'k': v}, lambda v: {'k': {'j': v}, 'z': 1}):
             for nm in ('ignore_numeric_type_changes', 'significant_digits', 'significant_digits_e'):
                 cases.append((w(x), w(y), (nm,) if nm == 'ignore_numeric_type_changes' else ('ignore_numeric_type_changes', nm), 'direct'))
+    # a str and its bytes, a number in two types, compared directly under the two type-ignoring options together (and each with a third option)
+    for (x, y) in [('a', b'a'), ('héllo', 'héllo'.encode()), ('', b''), ('a', b'b'), (1, 1.0), (2.5, _dc.Decimal('2.5')), ('1', 1), (b'1', 1.0)]:
+        for w in (lambda v: v, lambda v: {'k': v}, lambda v: {'k': {'j': v}, 'z': 1}, lambda v: [{'k': v}, 0]):
+            for combo in (('ignore_string_type_changes', 'ignore_numeric_type_changes'), ('ignore_numeric_type_changes', 'ignore_string_type_changes'),
+                          ('ignore_string_type_changes', 'significant_digits'), ('ignore_string_type_changes', 'use_enum_value'), ('ignore_numeric_type_changes', 'ignore_string_case')):
+                cases.append((w(x), w(y), combo) + (() if isinstance(w(0), list) else ('direct',)))       # inside a list the two go through one hashes table (NoNumAlias applies)
+    # the second value is itself a part of the first (a node against its successor, a tree against one of its branches), no cycle anywhere
+    for val in ('a', 1, None):
+        succ = {'val': val, 'next': None}
+        node = {'val': val, 'next': succ}
+        head = {'val': val, 'next': node}
+        tree = {'val': val, 'kids': [{'val': val, 'kids': []}], 'next': None}
+        branch = tree['kids'][0]
+        for (x, y) in [(node, succ), (head, node), (head, succ), (succ, node), (tree, branch), ([node, 1], [succ, 1]), ({'k': node}, {'k': succ})]:
+            for combo in (('none',), ('ignore_string_case',), ('ignore_numeric_type_changes',)):
+                cases.append((x, y, combo))
     # members of two Enum classes with equal (or different) values, compared directly and inside a dictionary in a list
     for (x, y) in [(C11.Color.RED, Level.LOW), (Level.LOW, C11.Color.RED), (C11.Color.GREEN, Level.NAME), (C11.Color.RED, Level.MID), (Level.MID, 2.5), (Level.LOW, 1),
                    (C11.Color.GREEN, Level.LOW)]:
